@@ -309,10 +309,10 @@ def units(tier):
     for fn in FUNCS:
         for kind in ("sync", "async"):
             ll = L - 1 if (fn in heavy and quick) else L
-            us.append({"name": "%s %s L=%d" % (fn, kind, ll), "fn": diff, "params": {"fn": fn, "kind": kind, "L": ll}, "budget_s": 100 if quick else 1200})
+            us.append({"name": "%s %s L=%d" % (fn, kind, ll), "fn": diff, "params": {"fn": fn, "kind": kind, "L": ll}, "budget_s": 240 if quick else 1200})
     for nc in ((2,) if quick else (2, 3)):
         for kind in ("sync", "async"):
-            us.append({"name": "tee nc=%d %s" % (nc, kind), "fn": tee_scn, "params": {"nc": nc, "L": 2 if quick else 3, "kind": kind}, "budget_s": 100 if quick else 1200})
+            us.append({"name": "tee nc=%d %s" % (nc, kind), "fn": tee_scn, "params": {"nc": nc, "L": 2 if quick else 3, "kind": kind}, "budget_s": 240 if quick else 1200})
     if not quick:
         us.append({"name": "tee nc=2 async eager", "fn": tee_scn, "params": {"nc": 2, "L": 2, "kind": "async", "eager": True}, "budget_s": 600})
     us.append({"name": "tee args", "fn": tee_args, "params": {}, "budget_s": 30})
